@@ -19,6 +19,8 @@ Theorem C18_proto_subject_kind : forall p t, tuple_from_data_provider p = Ok t -
   (exists s, p_sub p = Some (Some (PId s)) /\ t_sid t = Some s /\ t_sset t = None) \/
   (exists n o r, p_sub p = Some (Some (PSet n o r)) /\ t_sid t = None /\ t_sset t = Some {| ss_ns := n; ss_obj := o; ss_rel := r |}).
 Proof. exact proto_subject_kind. Qed.
+Theorem C18_proto_decoders_total : forall p, tuple_from_proto p <> Panic /\ tuple_from_data_provider p <> Panic.
+Proof. exact proto_decoders_total. Qed.
 (* JSON (field presence level; encoding/json is trusted on valid UTF-8) *)
 Theorem C18_json_tuple_roundtrip : forall t, tuple_from_json (tuple_to_json t) = Ok t.
 Proof. exact json_tuple_roundtrip. Qed.
